@@ -74,7 +74,13 @@ Inductive ev :=
 | AllowInit                     (* hook VerifShiftHandshakeTimes: the 5 s spacing has elapsed *)
 | Uapi (pka_on : bool)          (* IpcSet on the peer: handlePostConfig (SendKeepalive if pka turned on; SendStagedPackets) *)
 | RefInit (idx : N)             (* the remote party initiates (its index is idx); we answer: the new keypair waits in "next" *)
-| RefData.                      (* a data message under the remote party's latest initiated session: confirms "next" *)
+| RefData                       (* a data message under the remote party's latest initiated session: confirms "next" *)
+| TunBatchErr (pkts : list N) (k : nat) (lost : list N)
+                                (* a TUN batch whose transport Bind.Send fails after k datagrams went out (k = 0: clean
+                                   failure); lost = the packets the bind refused (environment fact, used by the
+                                   specification only); the error applies only if nothing was staged before *)
+| TunBatchIErr (pkts : list N)  (* a TUN batch during which the bind refuses the handshake initiation (if one is attempted) *)
+| Retransmit.                   (* the retransmit-handshake timer fires (RekeyTimeout + jitter after an initiation) *)
 
 Record out := { o_tx : list (N * N * N);   (* (receiver index, counter, payload) in sending order *)
                 o_init : N }.              (* handshake initiations emitted *)
@@ -107,7 +113,9 @@ Definition nonempty {A} (l : list A) : bool := match l with [] => false | _ => t
 
 (* SendStagedPackets, followed (at quiescence) by the keepKeyFreshSending of
    the sequential sender after the last container it sent *)
-Definition flush (s : dst) : dst * out :=
+(* fail = Some k: the (single) transport Bind.Send of this flush returns an error after k datagrams; the
+   sequential sender then skips keepKeyFreshSending; the counters stay consumed, nothing is re-emitted *)
+Definition flush_gen (fail : option nat) (s : dst) : dst * out :=
   match staged s with
   | [] => (s, {| o_tx := []; o_init := 0 |})
   | _ :: _ =>
@@ -119,10 +127,14 @@ Definition flush (s : dst) : dst * out :=
             let '(n', q', tx, ex) := flush_loop (kidx k) (knonce k) (staged s) in
             let s1 := {| cur := Some {| kidx := kidx k; knonce := n'; kinit := kinit k |}; nxt := nxt s; staged := q';
                          init_ok := init_ok s; pending := pending s |} in
-            if ex || (nonempty tx && (Rekey <? n')) then initiate s1 tx
-            else (s1, {| o_tx := tx; o_init := 0 |})
+            let sent := match fail with Some k => firstn k tx | None => tx end in
+            let ok := match fail with Some _ => false | None => true end in
+            if ex || (ok && nonempty tx && (Rekey <? n')) then initiate s1 sent
+            else (s1, {| o_tx := sent; o_init := 0 |})
       end
   end.
+
+Definition flush (s : dst) : dst * out := flush_gen None s.
 
 (* SendKeepalive's first half *)
 Definition stage_keepalive (s : dst) : dst :=
@@ -164,4 +176,26 @@ Definition dstep (s : dst) (e : ev) : dst * out :=
       | Some k => flush {| cur := Some k; nxt := None; staged := staged s; init_ok := init_ok s; pending := pending s |}
       | None => (s, {| o_tx := []; o_init := 0 |})
       end
+  | TunBatchErr pkts k _ =>
+      match pkts, staged s with
+      | _ :: _, [] => flush_gen (Some k) {| cur := cur s; nxt := nxt s; staged := stage (staged s) pkts;
+                                            init_ok := init_ok s; pending := pending s |}
+      | [], _ => (s, {| o_tx := []; o_init := 0 |})
+      | _ :: _, _ :: _ => flush {| cur := cur s; nxt := nxt s; staged := stage (staged s) pkts;
+                                   init_ok := init_ok s; pending := pending s |}
+      end
+  | TunBatchIErr pkts =>
+      (* the attempt counts (lastSentHandshake, handshake state, retransmit timer); nothing reaches the wire *)
+      match pkts with
+      | [] => (s, {| o_tx := []; o_init := 0 |})
+      | _ => let '(s', o) := flush {| cur := cur s; nxt := nxt s; staged := stage (staged s) pkts;
+                                      init_ok := init_ok s; pending := pending s |} in
+             (s', {| o_tx := o_tx o; o_init := 0 |})
+      end
+  | Retransmit =>
+      (* expiredRetransmitHandshake -> SendHandshakeInitiation(true): RekeyTimeout has passed by construction *)
+      if pending s
+      then ({| cur := cur s; nxt := nxt s; staged := staged s; init_ok := false; pending := true |},
+            {| o_tx := []; o_init := 1 |})
+      else (s, {| o_tx := []; o_init := 0 |})
   end.
